@@ -1,10 +1,896 @@
-//! C08 — (stub; filled in during the build phase)
+//! C08 — the encoded generator request is decodable and says what the AST says.
+//!
+//! The request captured on a fake generator's stdin is decoded by an independent decoder written from the Compiler
+//! schema (/repo/slice/Compiler/*.slice) and compared with the request computed from the model.
 
 use super::PropMeta;
 use crate::engine::*;
+use crate::model::ast::*;
+use crate::model::doc::{self, LINK_MARK};
+use crate::model::gen;
+use crate::model::print::*;
+use crate::model::resolve::*;
+use crate::model::tree::{diff, Node};
+use crate::proc::{encode_reply, gen_spec, run, show_bytes, split_request, Gen, Install, Scenario, Script, Step};
+use crate::refcodec::Rd;
+use crate::util::*;
+use serde_json::{json, Value};
+use std::time::Duration;
 
-pub fn meta(_m: &mut PropMeta) {}
+pub fn meta(m: &mut PropMeta) {
+    m.rule = "model programs (each of the 40 constructs alone in 4 module scopes, all ordered pairs of constructs, all 40 constructs packed in one file, documentation-carrying operations with every @param/@returns shape incl. a return member named like a parameter, enumerator values at the extremes of every underlying type, discriminants 0 and 2^31-1, tags 0 and 2^31-1, anonymous types nested to depth 3, aliases of named and anonymous types) x every split of the 2-3 files into sources and references in every order x 4 generator argument lists; each run executes the real slicec binary with a capturing fake generator. Oracle: the captured stdin must end with the generator's own arguments; the prefix is decoded field by field by an independent decoder written from slice/Compiler (bit-sequence byte for the one optional field, fields in schema order, variants as varint discriminant + payload, tag-end markers) and must be consumed completely; the decoded value, with numeric type ids inlined structurally, equals the request computed from the model (paths, modules, attributes with arguments, identifiers, flags, tags, values, type structure, comments, per-parameter and per-return documentation, source/reference split, all orders); every numeric id refers to an earlier anonymous-type symbol of the same file; every named type id, base and resolved link exists in a transmitted file. non-trivial = the program has an anonymous type, a comment or a reference file; distinct = distinct (files, split, arguments).";
+    m.explanation = "process-level enumeration with a capturing generator; independent schema decoder; expected request computed from the model";
+    m.quick_bound = "constructs alone x 4 scopes x 4 splits x 4 argument lists; all construct pairs; packed files; 3-file splits";
+    m.thorough_bound = "same plus all construct pairs x 4 splits";
+    m.quick_cap_s = 90.0;
+}
 
-pub fn families(_tier: &str) -> Vec<Box<dyn Family>> {
-    vec![]
+// ---------------------------------------------------------------------------------------------------------------
+// Independent decoder (schema: slice/Compiler)
+
+struct Dec<'a> {
+    rd: Rd<'a>,
+}
+type DR<T> = Result<T, String>;
+
+impl<'a> Dec<'a> {
+    fn byte(&mut self) -> DR<u8> {
+        if self.rd.pos >= self.rd.b.len() {
+            return Err(format!("unexpected end of request at byte {}", self.rd.pos));
+        }
+        let b = self.rd.b[self.rd.pos];
+        self.rd.pos += 1;
+        Ok(b)
+    }
+    fn boolean(&mut self) -> DR<bool> {
+        match self.byte()? {
+            0 => Ok(false),
+            1 => Ok(true),
+            x => Err(format!("invalid bool {x} at byte {}", self.rd.pos - 1)),
+        }
+    }
+    fn var(&mut self, signed: bool) -> DR<i128> {
+        if self.rd.pos >= self.rd.b.len() {
+            return Err(format!("unexpected end of request at byte {}", self.rd.pos));
+        }
+        let n = 1usize << (self.rd.b[self.rd.pos] & 3);
+        if self.rd.pos + n > self.rd.b.len() {
+            return Err(format!("truncated variable-width integer at byte {}", self.rd.pos));
+        }
+        let mut buf = [0u8; 16];
+        buf[..n].copy_from_slice(&self.rd.b[self.rd.pos..self.rd.pos + n]);
+        self.rd.pos += n;
+        let raw = u128::from_le_bytes(buf);
+        let bits = n as u32 * 8;
+        Ok(if signed { ((raw << (128 - bits)) as i128 >> (128 - bits)) >> 2 } else { (raw >> 2) as i128 })
+    }
+    fn size(&mut self) -> DR<usize> {
+        Ok(self.var(false)? as usize)
+    }
+    fn string(&mut self) -> DR<String> {
+        let n = self.size()?;
+        if self.rd.pos + n > self.rd.b.len() {
+            return Err(format!("string of {n} bytes runs past the end at byte {}", self.rd.pos));
+        }
+        let s = std::str::from_utf8(&self.rd.b[self.rd.pos..self.rd.pos + n]).map_err(|_| format!("invalid UTF-8 in string at byte {}", self.rd.pos))?.to_string();
+        self.rd.pos += n;
+        Ok(s)
+    }
+    fn fixed(&mut self, n: usize) -> DR<u128> {
+        if self.rd.pos + n > self.rd.b.len() {
+            return Err(format!("truncated fixed-width integer at byte {}", self.rd.pos));
+        }
+        let mut buf = [0u8; 16];
+        buf[..n].copy_from_slice(&self.rd.b[self.rd.pos..self.rd.pos + n]);
+        self.rd.pos += n;
+        Ok(u128::from_le_bytes(buf))
+    }
+    fn end(&mut self, what: &str) -> DR<()> {
+        let at = self.rd.pos;
+        match self.var(true)? {
+            -1 => Ok(()),
+            x => Err(format!("expected the tag end marker after {what} at byte {at}, found varint {x}")),
+        }
+    }
+    fn seq<T>(&mut self, mut f: impl FnMut(&mut Self) -> DR<T>) -> DR<Vec<T>> {
+        let n = self.size()?;
+        if n > self.rd.b.len() {
+            return Err(format!("sequence announces {n} elements at byte {}", self.rd.pos));
+        }
+        let mut v = vec![];
+        for _ in 0..n {
+            v.push(f(self)?);
+        }
+        Ok(v)
+    }
+    fn attribute(&mut self) -> DR<Node> {
+        let mut n = Node::new("attr");
+        n.prop("directive", &self.string()?);
+        let args = self.seq(|d| d.string())?;
+        n.prop("args", &args.join("\u{1f}"));
+        self.end("Attribute")?;
+        Ok(n)
+    }
+    fn attributes(&mut self) -> DR<Vec<Node>> {
+        self.seq(|d| d.attribute())
+    }
+    fn doc_comment(&mut self) -> DR<Node> {
+        let mut n = Node::new("comment");
+        let comps = self.seq(|d| {
+            let disc = d.var(true)?;
+            let s = d.string()?;
+            d.end("MessageComponent")?;
+            match disc {
+                0 => Ok((false, s)),
+                1 => Ok((true, s)),
+                x => Err(format!("MessageComponent discriminant {x}")),
+            }
+        })?;
+        let mut text = String::new();
+        let mut links = vec![];
+        for (is_link, s) in comps {
+            if is_link {
+                text.push_str(LINK_MARK);
+                links.push(s);
+            } else {
+                text.push_str(&s);
+            }
+        }
+        n.prop("overview", &text.replace("\r\n", "\n"));
+        n.prop("links", &links.join(" "));
+        let see = self.seq(|d| d.string())?;
+        n.prop("see", &see.join(" "));
+        self.end("DocComment")?;
+        Ok(n)
+    }
+    /// EntityInfo -> (identifier, children: attrs + optional comment)
+    fn entity_info(&mut self, n: &mut Node) -> DR<()> {
+        let bits = self.byte()?;
+        if bits > 1 {
+            return Err(format!("EntityInfo bit sequence byte is {bits:#x} at byte {}", self.rd.pos - 1));
+        }
+        n.props.insert(0, ("id", self.string()?));
+        n.children.extend(self.attributes()?);
+        if bits & 1 == 1 {
+            n.children.push(self.doc_comment()?);
+        }
+        self.end("EntityInfo")
+    }
+    fn type_ref(&mut self) -> DR<Node> {
+        let mut n = Node::new("type");
+        n.prop("id", &self.string()?);
+        n.prop("optional", if self.boolean()? { "true" } else { "false" });
+        n.children.extend(self.attributes()?);
+        self.end("TypeRef")?;
+        Ok(n)
+    }
+    fn field(&mut self, kind: &'static str) -> DR<Node> {
+        let bits = self.byte()?;
+        if bits > 1 {
+            return Err(format!("Field bit sequence byte is {bits:#x} at byte {}", self.rd.pos - 1));
+        }
+        let mut n = Node::new(kind);
+        self.entity_info(&mut n)?;
+        if bits & 1 == 1 {
+            let at = self.rd.pos;
+            let t = self.var(true)?;
+            if t < i32::MIN as i128 || t > i32::MAX as i128 {
+                return Err(format!("tag {t} outside varint32 at byte {at}"));
+            }
+            n.prop("tag", &t.to_string());
+        } else {
+            n.prop("tag", "none");
+        }
+        n.children.push(self.type_ref()?);
+        self.end("Field")?;
+        Ok(n)
+    }
+    fn symbol(&mut self) -> DR<Node> {
+        let at = self.rd.pos;
+        let disc = self.var(true)?;
+        let mut n;
+        match disc {
+            0 => {
+                n = Node::new("interface");
+                self.entity_info(&mut n)?;
+                let bases = self.seq(|d| d.string())?;
+                n.prop("bases", &bases.join(" "));
+                let ops = self.seq(|d| {
+                    let mut o = Node::new("operation");
+                    d.entity_info(&mut o)?;
+                    o.prop("idempotent", if d.boolean()? { "true" } else { "false" });
+                    let ps = d.seq(|d| d.field("param"))?;
+                    o.prop("streamed_param", if d.boolean()? { "true" } else { "false" });
+                    let rs = d.seq(|d| d.field("ret"))?;
+                    o.prop("streamed_return", if d.boolean()? { "true" } else { "false" });
+                    o.children.extend(ps);
+                    o.children.extend(rs);
+                    d.end("Operation")?;
+                    Ok(o)
+                })?;
+                n.children.extend(ops);
+                self.end("Interface")?;
+            }
+            1 => {
+                n = Node::new("basic-enum");
+                self.entity_info(&mut n)?;
+                n.prop("unchecked", if self.boolean()? { "true" } else { "false" });
+                n.prop("underlying", &self.string()?);
+                let ens = self.seq(|d| {
+                    let mut e = Node::new("enumerator");
+                    d.entity_info(&mut e)?;
+                    let abs = d.fixed(8)?;
+                    let neg = d.boolean()?;
+                    e.prop("value", &if neg { format!("-{abs}") } else { abs.to_string() });
+                    d.end("Enumerator")?;
+                    Ok(e)
+                })?;
+                n.children.extend(ens);
+                self.end("BasicEnum")?;
+            }
+            2 => {
+                n = Node::new("variant-enum");
+                self.entity_info(&mut n)?;
+                n.prop("compact", if self.boolean()? { "true" } else { "false" });
+                n.prop("unchecked", if self.boolean()? { "true" } else { "false" });
+                let vs = self.seq(|d| {
+                    let mut e = Node::new("variant");
+                    d.entity_info(&mut e)?;
+                    let disc = d.fixed(4)? as u32 as i32;
+                    e.prop("discriminant", &disc.to_string());
+                    let fs = d.seq(|d| d.field("field"))?;
+                    e.children.extend(fs);
+                    d.end("Variant")?;
+                    Ok(e)
+                })?;
+                n.children.extend(vs);
+                self.end("VariantEnum")?;
+            }
+            3 => {
+                n = Node::new("struct");
+                self.entity_info(&mut n)?;
+                n.prop("compact", if self.boolean()? { "true" } else { "false" });
+                let fs = self.seq(|d| d.field("field"))?;
+                n.children.extend(fs);
+                self.end("Struct")?;
+            }
+            4 => {
+                n = Node::new("custom");
+                self.entity_info(&mut n)?;
+                self.end("CustomType")?;
+            }
+            5 => {
+                n = Node::new("anon-seq");
+                n.children.push(self.type_ref()?);
+                self.end("SequenceType")?;
+            }
+            6 => {
+                n = Node::new("anon-dict");
+                n.children.push(self.type_ref()?);
+                n.children.push(self.type_ref()?);
+                self.end("DictionaryType")?;
+            }
+            7 => {
+                n = Node::new("anon-result");
+                n.children.push(self.type_ref()?);
+                n.children.push(self.type_ref()?);
+                self.end("ResultType")?;
+            }
+            8 => {
+                n = Node::new("alias");
+                self.entity_info(&mut n)?;
+                n.children.push(self.type_ref()?);
+                self.end("TypeAlias")?;
+            }
+            x => return Err(format!("Symbol discriminant {x} at byte {at}")),
+        }
+        self.end("Symbol variant")?;
+        Ok(n)
+    }
+    fn file(&mut self) -> DR<Node> {
+        let mut f = Node::new("file");
+        f.prop("path", &self.string()?);
+        let mut m = Node::new("module");
+        m.prop("id", &self.string()?);
+        m.children.extend(self.attributes()?);
+        self.end("Module")?;
+        let mut attrs = self.attributes()?;
+        for a in &mut attrs {
+            a.kind = "fileattr";
+        }
+        f.children.extend(attrs);
+        f.children.push(m);
+        let symbols = self.seq(|d| d.symbol())?;
+        self.end("SliceFile")?;
+        // inline numeric ids (each must refer to an EARLIER anonymous-type symbol of this file)
+        let mut resolved: Vec<Node> = vec![];
+        for (i, s) in symbols.iter().enumerate() {
+            let mut s = s.clone();
+            inline_ids(&mut s, i, &resolved)?;
+            resolved.push(s);
+        }
+        for s in resolved {
+            if !s.kind.starts_with("anon-") {
+                f.children.push(s);
+            }
+        }
+        Ok(f)
+    }
+}
+
+fn inline_ids(n: &mut Node, index: usize, earlier: &[Node]) -> DR<()> {
+    if n.kind == "type" {
+        let id = n.get("id").unwrap().to_string();
+        if !id.is_empty() && id.chars().all(|c| c.is_ascii_digit()) {
+            let k: usize = id.parse().map_err(|_| format!("numeric type id {id}"))?;
+            if k >= index {
+                return Err(format!("numeric type id {k} used by symbol {index} does not refer to an earlier symbol"));
+            }
+            let target = &earlier[k];
+            if !target.kind.starts_with("anon-") {
+                return Err(format!("numeric type id {k} refers to a {} symbol, not to an anonymous type", target.kind));
+            }
+            n.set("id", target.kind);
+            let attrs: Vec<Node> = n.children.drain(..).collect();
+            n.children.extend(attrs);
+            n.children.extend(target.children.iter().cloned());
+        }
+        return Ok(());
+    }
+    for c in &mut n.children {
+        inline_ids(c, index, earlier)?;
+    }
+    Ok(())
+}
+
+/// Decode a request prefix: (sources, references).
+pub fn decode_request(bytes: &[u8]) -> DR<(Vec<Node>, Vec<Node>)> {
+    let mut d = Dec { rd: Rd { b: bytes, pos: 0 } };
+    let op = d.string()?;
+    if op != "generateCode" {
+        return Err(format!("operation name is {op:?}"));
+    }
+    let sources = d.seq(|d| d.file())?;
+    let references = d.seq(|d| d.file())?;
+    if d.rd.pos != bytes.len() {
+        return Err(format!("{} bytes left over after the reference files (before the generator's arguments)", bytes.len() - d.rd.pos));
+    }
+    Ok((sources, references))
+}
+
+// ---------------------------------------------------------------------------------------------------------------
+// Expected request from the model
+
+struct Exp<'a> {
+    r: Resolver<'a>,
+    scope: String,
+}
+
+impl<'a> Exp<'a> {
+    fn attrs(&self, attrs: &[MAttr], kind: &'static str) -> Vec<Node> {
+        attrs
+            .iter()
+            .map(|a| {
+                let mut n = attr_node(a);
+                n.kind = kind;
+                n
+            })
+            .collect()
+    }
+    fn link_id(&self, written: &str, owner: &str) -> String {
+        let b = doc::expected_binding(self.r.table, written, owner);
+        match b.split_once(':') {
+            Some(("broken", id)) => id.to_string(),
+            Some((_, scoped)) => scoped.to_string(),
+            None => written.to_string(),
+        }
+    }
+    fn comment_from(&self, overview: Option<&doc::EMsg>, see: &[String], owner: &str) -> Node {
+        let mut n = Node::new("comment");
+        match overview {
+            Some(m) => {
+                n.prop("overview", &m.text);
+                n.prop("links", &m.links.iter().map(|l| self.link_id(l, owner)).collect::<Vec<_>>().join(" "));
+            }
+            None => {
+                n.prop("overview", "");
+                n.prop("links", "");
+            }
+        }
+        n.prop("see", &see.iter().map(|l| self.link_id(l, owner)).collect::<Vec<_>>().join(" "));
+        n
+    }
+    fn info(&self, n: &mut Node, c: &MCommon, owner: &str) {
+        n.props.insert(0, ("id", c.name.name.clone()));
+        n.children.extend(self.attrs(&c.attrs, "attr"));
+        if !c.doc.lines.is_empty() {
+            if let Ok(d) = doc::ref_parse(&c.doc.lines) {
+                n.children.push(self.comment_from(d.overview.as_ref(), &d.see, owner));
+            }
+        }
+    }
+    fn rtype(&self, rt: &RType) -> Node {
+        let mut n = Node::new("type");
+        let id = match &rt.is {
+            RIs::Prim(p) => p.to_string(),
+            RIs::Def { scoped, .. } => scoped.clone(),
+            RIs::Seq(_) => "anon-seq".into(),
+            RIs::Dict(..) => "anon-dict".into(),
+            RIs::Result(..) => "anon-result".into(),
+            RIs::Unresolved(s) => format!("unresolved:{s}"),
+        };
+        n.prop("id", &id);
+        n.prop("optional", if rt.optional { "true" } else { "false" });
+        n.children.extend(self.attrs(&rt.attrs, "attr"));
+        match &rt.is {
+            RIs::Seq(e) => n.children.push(self.rtype(e)),
+            RIs::Dict(a, b) | RIs::Result(a, b) => {
+                n.children.push(self.rtype(a));
+                n.children.push(self.rtype(b));
+            }
+            _ => {}
+        }
+        n
+    }
+    fn ty(&self, t: &MType) -> Node {
+        match self.r.resolve(t, &self.scope) {
+            Ok(rt) => self.rtype(&rt),
+            Err(e) => {
+                let mut n = Node::new("type");
+                n.prop("id", &format!("<unresolvable {e:?}>"));
+                n
+            }
+        }
+    }
+    fn field(&self, f: &MField, owner: &str) -> Node {
+        let mut n = Node::new("field");
+        let me = format!("{owner}::{}", f.c.name.name);
+        self.info(&mut n, &f.c, &me);
+        n.prop("tag", &f.tag.as_ref().map(|t| t.value.to_string()).unwrap_or("none".into()));
+        n.children.push(self.ty(&f.ty));
+        n
+    }
+    /// parameter / return member: its documentation comes from the operation's @param / @returns tag
+    fn member(&self, kind: &'static str, name: &str, attrs: &[MAttr], tag: &Option<MInt>, ty: &MType, docmsg: Option<&doc::EMsg>, op_scoped: &str) -> Node {
+        let mut n = Node::new(kind);
+        n.props.insert(0, ("id", name.to_string()));
+        n.children.extend(self.attrs(attrs, "attr"));
+        if let Some(m) = docmsg {
+            n.children.push(self.comment_from(Some(m), &[], op_scoped));
+        }
+        n.prop("tag", &tag.as_ref().map(|t| t.value.to_string()).unwrap_or("none".into()));
+        n.children.push(self.ty(ty));
+        n
+    }
+    fn def(&self, d: &MDef) -> Node {
+        let dn = if self.scope.is_empty() { d.common().name.name.clone() } else { format!("{}::{}", self.scope, d.common().name.name) };
+        match d {
+            MDef::Struct(s) => {
+                let mut n = Node::new("struct");
+                self.info(&mut n, &s.c, &dn);
+                n.prop("compact", if s.compact { "true" } else { "false" });
+                for f in &s.fields {
+                    n.children.push(self.field(f, &dn));
+                }
+                n
+            }
+            MDef::Interface(i) => {
+                let mut n = Node::new("interface");
+                self.info(&mut n, &i.c, &dn);
+                let bases: Vec<String> = i
+                    .bases
+                    .iter()
+                    .map(|b| match self.r.resolve(b, &self.scope) {
+                        Ok(RType { is: RIs::Def { scoped, .. }, .. }) => scoped,
+                        _ => "<unresolvable>".into(),
+                    })
+                    .collect();
+                n.prop("bases", &bases.join(" "));
+                for o in &i.ops {
+                    let on = format!("{dn}::{}", o.c.name.name);
+                    let mut x = Node::new("operation");
+                    self.info(&mut x, &o.c, &on);
+                    x.prop("idempotent", if o.idempotent { "true" } else { "false" });
+                    let parsed = if o.c.doc.lines.is_empty() { None } else { doc::ref_parse(&o.c.doc.lines).ok() };
+                    for p in &o.params {
+                        let m = parsed.as_ref().and_then(|d| d.params.iter().find(|(id, _)| id == &p.name.name).map(|(_, m)| m));
+                        x.children.push(self.member("param", &p.name.name, &p.attrs, &p.tag, &p.ty, m, &on));
+                    }
+                    x.prop("streamed_param", if o.params.last().map_or(false, |p| p.stream) { "true" } else { "false" });
+                    match &o.ret {
+                        MRet::None => x.prop("streamed_return", "false"),
+                        MRet::Single { tag, stream, ty } => {
+                            let m = parsed.as_ref().and_then(|d| d.returns.iter().find(|(id, _)| id.is_none()).map(|(_, m)| m));
+                            x.children.push(self.member("ret", "returnValue", &[], tag, ty, m, &on));
+                            x.prop("streamed_return", if *stream { "true" } else { "false" });
+                        }
+                        MRet::Tuple(ps) => {
+                            for p in ps {
+                                let m = parsed.as_ref().and_then(|d| d.returns.iter().find(|(id, _)| id.as_deref() == Some(p.name.name.as_str())).map(|(_, m)| m));
+                                x.children.push(self.member("ret", &p.name.name, &p.attrs, &p.tag, &p.ty, m, &on));
+                            }
+                            x.prop("streamed_return", if ps.last().map_or(false, |p| p.stream) { "true" } else { "false" });
+                        }
+                    }
+                    n.children.push(x);
+                }
+                n
+            }
+            MDef::Enum(e) => {
+                let mut n = Node::new(if e.underlying.is_some() { "basic-enum" } else { "variant-enum" });
+                self.info(&mut n, &e.c, &dn);
+                if let Some(u) = &e.underlying {
+                    n.prop("unchecked", if e.unchecked { "true" } else { "false" });
+                    let us = match self.r.resolve(u, &self.scope) {
+                        Ok(RType { is: RIs::Prim(p), .. }) => p.to_string(),
+                        _ => "<unresolvable>".into(),
+                    };
+                    n.prop("underlying", &us);
+                } else {
+                    n.prop("compact", if e.compact { "true" } else { "false" });
+                    n.prop("unchecked", if e.unchecked { "true" } else { "false" });
+                }
+                let mut prev: Option<i128> = None;
+                for en in &e.enumerators {
+                    let v = match &en.value {
+                        Some(v) => v.value,
+                        None => prev.map_or(0, |p| p + 1),
+                    };
+                    prev = Some(v);
+                    let enn = format!("{dn}::{}", en.c.name.name);
+                    let mut x = Node::new(if e.underlying.is_some() { "enumerator" } else { "variant" });
+                    self.info(&mut x, &en.c, &enn);
+                    if e.underlying.is_some() {
+                        x.prop("value", &v.to_string());
+                    } else {
+                        x.prop("discriminant", &v.to_string());
+                        for f in en.fields.iter().flatten() {
+                            x.children.push(self.field(f, &enn));
+                        }
+                    }
+                    n.children.push(x);
+                }
+                n
+            }
+            MDef::Custom(c) => {
+                let mut n = Node::new("custom");
+                self.info(&mut n, &c.c, &dn);
+                n
+            }
+            MDef::Alias(a) => {
+                let mut n = Node::new("alias");
+                self.info(&mut n, &a.c, &dn);
+                n.children.push(self.ty(&a.ty));
+                n
+            }
+        }
+    }
+}
+
+pub fn expected_file(program: &Program, table: &Table, fi: usize, path: &str) -> Node {
+    let f = &program[fi];
+    let e = Exp { r: Resolver { program, table }, scope: f.module_name().to_string() };
+    let mut n = Node::new("file");
+    n.prop("path", path);
+    n.children.extend(e.attrs(&f.file_attrs, "fileattr"));
+    let mut m = Node::new("module");
+    m.prop("id", f.module_name());
+    if let Some(md) = &f.module {
+        m.children.extend(e.attrs(&md.attrs, "attr"));
+    }
+    n.children.push(m);
+    for d in &f.defs {
+        n.children.push(e.def(d));
+    }
+    n
+}
+
+fn collect_ids(n: &Node, scope: &str, defs: &mut Vec<String>) {
+    match n.kind {
+        "file" => {
+            let m = n.children.iter().find(|c| c.kind == "module").and_then(|m| m.get("id")).unwrap_or("").to_string();
+            for c in &n.children {
+                collect_ids(c, &m, defs);
+            }
+        }
+        "struct" | "interface" | "basic-enum" | "variant-enum" | "custom" | "alias" | "operation" | "field" | "enumerator" | "variant" | "param" | "ret" => {
+            let id = format!("{scope}::{}", n.get("id").unwrap_or(""));
+            defs.push(id.clone());
+            for c in &n.children {
+                collect_ids(c, &id, defs);
+            }
+        }
+        _ => {}
+    }
+}
+
+fn check_named_ids(n: &Node, known: &std::collections::HashSet<String>, problems: &mut Vec<String>) {
+    if n.kind == "type" {
+        let id = n.get("id").unwrap_or("");
+        if !id.starts_with("anon-") && !PRIMITIVES.contains(&id) && !known.contains(id) {
+            problems.push(format!("type id {id:?} names nothing in the transmitted files"));
+        }
+    }
+    if n.kind == "interface" {
+        for b in n.get("bases").unwrap_or("").split_whitespace() {
+            if !known.contains(b) {
+                problems.push(format!("base {b:?} names nothing in the transmitted files"));
+            }
+        }
+    }
+    for c in &n.children {
+        check_named_ids(c, known, problems);
+    }
+}
+
+// ---------------------------------------------------------------------------------------------------------------
+// Scenarios
+
+#[derive(Clone, Debug)]
+pub struct ReqCase {
+    pub program: Program,
+    /// for each file: (file name, is_source); command-line order = this order (sources and references interleaved
+    /// as given; slicec lists sources first, then references)
+    pub files: Vec<(String, bool, usize)>,
+    pub args: Vec<(String, String)>,
+    pub label: String,
+}
+
+fn arg_lists() -> Vec<Vec<(String, String)>> {
+    vec![
+        vec![],
+        vec![("k".into(), "v".into())],
+        vec![("a,b".into(), "x=y".into()), ("é".into(), "".into()), ("last".into(), "with space".into())],
+        vec![("keyonly".into(), "".into())],
+    ]
+}
+
+pub fn run_case(c: &ReqCase, fam: &str, out: &mut CaseOut) -> String {
+    let layout = Layout::uniform(Sep::Newline, Commas::None);
+    let table = Table::build(&c.program);
+    let resolver = Resolver { program: &c.program, table: &table };
+    let mut sc = Scenario::default();
+    let mut argv: Vec<String> = vec![];
+    for (name, is_source, fi) in &c.files {
+        let r = render_file_ctx(&c.program[*fi], &layout, Some(&resolver));
+        sc.tree.push((name.clone(), Node_::File(r.text.into_bytes())));
+        if *is_source {
+            argv.push(name.clone());
+        } else {
+            argv.push("-R".into());
+            argv.push(name.clone());
+        }
+    }
+    let reply = encode_reply(&[], &[]);
+    sc.gens.push(Gen { name: "capture".into(), install: Install::Script(Script(vec![Step::ReadAll, Step::Stdout(reply), Step::Exit(0)])) });
+    argv.push("-G".into());
+    argv.push(gen_spec("{gen0}", &c.args));
+    sc.argv = argv;
+    out.steps += 1;
+    let obs = run(&sc, Duration::from_secs(20));
+    let describe = || format!("{}\nargv {:?}\nexit {:?} stderr {}", c.label, obs.argv, obs.exit_code, show_bytes(&obs.stderr));
+    if obs.timed_out || obs.signal.is_some() || obs.panic_location().is_some() {
+        out.violate(format!("c08/{fam}/crash-or-hang"), format!("slicec crashed or hung: {}", describe()));
+        return "crash".into();
+    }
+    if obs.exit_code != Some(0) {
+        out.violate(format!("c08/{fam}/valid-program-rejected"), format!("a valid program was not compiled cleanly: {}", describe()));
+        return "rejected".into();
+    }
+    let Some(stdin) = obs.gens.get(0).and_then(|g| g.stdin.clone()) else {
+        out.violate(format!("c08/{fam}/generator-not-run"), format!("the generator received nothing: {}", describe()));
+        return "no-stdin".into();
+    };
+    let Some(request) = split_request(&stdin, &c.args) else {
+        out.violate(format!("c08/{fam}/arguments-suffix"), format!("the generator's stdin does not end with the encoding of its own arguments {:?}: tail {}\n{}", c.args, show_bytes(&stdin[stdin.len().saturating_sub(80)..]), describe()));
+        return "bad-args".into();
+    };
+    let (sources, references) = match decode_request(&request) {
+        Ok(x) => x,
+        Err(e) => {
+            let what: String = e.chars().filter(|c| !c.is_ascii_digit()).take(60).collect();
+            out.violate(format!("c08/{fam}/undecodable/{}", what.trim().replace(' ', "-")), format!("the request does not decode according to the Compiler schema: {e}\n{}", describe()));
+            return "undecodable".into();
+        }
+    };
+    // expected: sources in the order given, then references in the order given
+    let exp_sources: Vec<Node> = c.files.iter().filter(|f| f.1).map(|(n, _, fi)| expected_file(&c.program, &table, *fi, n)).collect();
+    let exp_refs: Vec<Node> = c.files.iter().filter(|f| !f.1).map(|(n, _, fi)| expected_file(&c.program, &table, *fi, n)).collect();
+    for (what, exp, got) in [("sources", &exp_sources, &sources), ("references", &exp_refs, &references)] {
+        let ep: Vec<&str> = exp.iter().map(|f| f.get("path").unwrap()).collect();
+        let gp: Vec<&str> = got.iter().map(|f| f.get("path").unwrap_or("?")).collect();
+        if ep != gp {
+            out.violate(format!("c08/{fam}/file-split-or-order/{what}"), format!("{what}: expected files {ep:?}, request has {gp:?}\n{}", describe()));
+            continue;
+        }
+        for (e, g) in exp.iter().zip(got.iter()) {
+            if let Some(d) = diff(e, g) {
+                out.violate(format!("c08/{fam}/content-differs{}", d.path), format!("{what} file {:?}: at {}: {} expected {:?}, request says {:?}\n{}", e.get("path"), d.path_named, d.what, d.expected, d.observed, describe()));
+            }
+        }
+    }
+    // named ids exist in some transmitted file
+    let mut ids = vec![];
+    for f in sources.iter().chain(references.iter()) {
+        collect_ids(f, "", &mut ids);
+    }
+    let known: std::collections::HashSet<String> = ids.into_iter().collect();
+    let mut problems = vec![];
+    for f in sources.iter().chain(references.iter()) {
+        check_named_ids(f, &known, &mut problems);
+    }
+    if let Some(p) = problems.first() {
+        out.violate(format!("c08/{fam}/dangling-id"), format!("{p}\n{}", describe()));
+    }
+    format!("ok:{}src+{}ref:{}B", sources.len(), references.len(), (request.len() / 512) * 512)
+}
+
+// `Node` of crate::proc clashes with the tree Node: alias it
+use crate::proc::Node as Node_;
+
+pub trait ReqFamily: Sync + Send {
+    fn name(&self) -> String;
+    fn len(&self) -> u64;
+    fn get(&self, idx: u64) -> ReqCase;
+}
+pub struct ReqCheck {
+    pub inner: Box<dyn ReqFamily>,
+}
+impl Family for ReqCheck {
+    fn name(&self) -> String {
+        self.inner.name()
+    }
+    fn len(&self) -> u64 {
+        self.inner.len()
+    }
+    fn hang_secs(&self) -> f64 {
+        60.0
+    }
+    fn describe(&self, idx: u64) -> Value {
+        let c = self.inner.get(idx);
+        let layout = Layout::uniform(Sep::Newline, Commas::None);
+        let files: Vec<Value> = c.files.iter().map(|(n, s, fi)| json!({"name": n, "source": s, "text": render_file(&c.program[*fi], &layout).text})).collect();
+        json!({"label": c.label, "files": files, "generator_arguments": c.args})
+    }
+    fn run(&self, idx: u64) -> CaseOut {
+        let c = self.inner.get(idx);
+        let mut out = CaseOut::new(hash_str(&format!("{}{idx}", self.inner.name())));
+        out.steps = 0;
+        out.validated = 1;
+        out.nontrivial = true;
+        let fam = self.inner.name();
+        let fam = fam.split('/').next().unwrap().to_string();
+        out.class = run_case(&c, &fam, &mut out);
+        out
+    }
+}
+
+fn splits2() -> Vec<Vec<(usize, bool)>> {
+    // (file index, is_source) in command-line order
+    vec![vec![(0, true), (1, false)], vec![(0, true), (1, true)], vec![(1, true), (0, true)], vec![(1, true), (0, false)]]
+}
+
+pub struct Singles;
+impl ReqFamily for Singles {
+    fn name(&self) -> String {
+        "single-constructs/40 constructs x 4 module scopes x 4 source/reference splits x 4 argument lists".into()
+    }
+    fn len(&self) -> u64 {
+        (gen::N_CONSTRUCTS * 4 * 4 * 4) as u64
+    }
+    fn get(&self, idx: u64) -> ReqCase {
+        let a = (idx % 4) as usize;
+        let s = ((idx / 4) % 4) as usize;
+        let mv = ((idx / 16) % 4) as usize;
+        let k = (idx / 64) as usize;
+        let program = gen::sequence_program(&[k], mv);
+        let names = ["main.slice", "lib.slice"];
+        ReqCase { files: splits2()[s].iter().map(|(fi, src)| (names[*fi].to_string(), *src, *fi)).collect(), program, args: arg_lists()[a].clone(), label: format!("construct {k}, module variant {mv}, split {s}, args {a}") }
+    }
+}
+
+pub struct PairsFam {
+    pub all_splits: bool,
+}
+impl ReqFamily for PairsFam {
+    fn name(&self) -> String {
+        format!("construct-pairs/all 1600 ordered pairs{}", if self.all_splits { " x 4 splits" } else { ", split / scope / arguments rotate" })
+    }
+    fn len(&self) -> u64 {
+        1600 * if self.all_splits { 4 } else { 1 }
+    }
+    fn get(&self, idx: u64) -> ReqCase {
+        let (pi, s) = if self.all_splits { (idx / 4, (idx % 4) as usize) } else { (idx, (idx % 4) as usize) };
+        let ks = [(pi % 40) as usize, (pi / 40) as usize];
+        let program = gen::sequence_program(&ks, (pi % 4) as usize);
+        let names = ["dir/main.slice", "lib.slice"];
+        ReqCase { files: splits2()[s].iter().map(|(fi, src)| (names[*fi].to_string(), *src, *fi)).collect(), program, args: arg_lists()[(pi % 4) as usize].clone(), label: format!("constructs {ks:?}, split {s}") }
+    }
+}
+
+/// All 40 constructs in one file; plus three-file programs in every split and order.
+pub struct Packed;
+impl ReqFamily for Packed {
+    fn name(&self) -> String {
+        "packed-and-three-files/all 40 constructs in one file x 4 scopes x 4 splits; 3 files x 7 source/reference assignments x 6 orders".into()
+    }
+    fn len(&self) -> u64 {
+        16 + 42
+    }
+    fn get(&self, idx: u64) -> ReqCase {
+        if idx < 16 {
+            let ks: Vec<usize> = (0..gen::N_CONSTRUCTS).collect();
+            let program = gen::sequence_program(&ks, (idx % 4) as usize);
+            let s = (idx / 4) as usize;
+            let names = ["main.slice", "lib.slice"];
+            return ReqCase { files: splits2()[s].iter().map(|(fi, src)| (names[*fi].to_string(), *src, *fi)).collect(), program, args: vec![], label: format!("all constructs, variant {}, split {s}", idx % 4) };
+        }
+        let i = idx - 16;
+        let order = [[0usize, 1, 2], [0, 2, 1], [1, 0, 2], [1, 2, 0], [2, 0, 1], [2, 1, 0]][(i % 6) as usize];
+        let assign = (i / 6) + 1; // 1..=7: bit k = file k is a source
+        let mut program = gen::sequence_program(&[6, 12, 27], 0);
+        let mut third = MFile::module("Third");
+        third.defs.push(st("T", vec![MField::new("a", MType::named("Lib::HS")), MField::new("b", MType::seq(MType::named("M::SRefs0").opt()))]));
+        program.push(third);
+        let names = ["main.slice", "lib.slice", "third.slice"];
+        ReqCase { files: order.iter().map(|fi| (names[*fi].to_string(), (assign >> fi) & 1 == 1, *fi)).collect(), program, args: vec![("x".into(), "1".into())], label: format!("three files, order {order:?}, sources mask {assign:#b}") }
+    }
+}
+
+/// Documentation shapes on operations; value extremes.
+pub struct Docs;
+impl ReqFamily for Docs {
+    fn name(&self) -> String {
+        "documentation-and-extremes/operations with every @param/@returns shape (single, tuple, member named like a parameter, missing, links, @see); enumerator values at the extremes of all 12 integral types; discriminant and tag extremes".into()
+    }
+    fn len(&self) -> u64 {
+        10 + 12 + 2
+    }
+    fn get(&self, idx: u64) -> ReqCase {
+        let i32t = || MType::prim("int32");
+        let mut f = MFile::module("M");
+        let label;
+        if idx < 10 {
+            let (params, ret, lines): (Vec<&str>, MRet, Vec<&str>) = match idx {
+                0 => (vec!["a"], MRet::Single { tag: None, stream: false, ty: i32t() }, vec![" Overview.", " @param a: the a", " @returns: the result"]),
+                1 => (vec!["a", "b"], MRet::Tuple(vec![MParam::new("x", i32t()), MParam::new("y", i32t())]), vec![" @param b: the b", " @param a: the a", " @returns y: the y", " @returns x: the x"]),
+                2 => (vec!["a"], MRet::Tuple(vec![MParam::new("a", i32t()), MParam::new("z", i32t())]), vec![" @param a: the parameter a", " @returns a: the RETURNED a", " @returns z: the z"]),
+                3 => (vec!["a"], MRet::Tuple(vec![MParam::new("a", i32t()), MParam::new("z", i32t())]), vec![" @param a: only the parameter is documented"]),
+                4 => (vec!["a"], MRet::Single { tag: None, stream: false, ty: i32t() }, vec![" @returns: see {@link Lib::HS} and {@link Nope}", "   continued", " @see Lib::HE", " @see Missing"]),
+                5 => (vec!["a", "b"], MRet::None, vec![" Only overview {@link M::I::op}."]),
+                6 => (vec![], MRet::Single { tag: None, stream: false, ty: i32t() }, vec![" @returns:", "   on the next line"]),
+                7 => (vec!["a"], MRet::Tuple(vec![MParam::new("x", i32t()), MParam::new("y", i32t())]), vec![" @returns: for the whole tuple"]),
+                8 => (vec!["a"], MRet::None, vec![" @param a: has {@link a} own param link"]),
+                _ => (vec!["returnValue"], MRet::Single { tag: None, stream: false, ty: i32t() }, vec![" @param returnValue: the parameter", " @returns: the value"]),
+            };
+            let mut o = op("op", params.iter().map(|p| MParam::new(p, i32t())).collect(), ret);
+            o.c = o.c.doc(&lines);
+            f.defs.push(iface("I", vec![], vec![o]));
+            label = format!("documentation shape {idx}");
+        } else if idx < 22 {
+            let prims = ["int8", "uint8", "int16", "uint16", "int32", "uint32", "varint32", "varuint32", "int64", "uint64", "varint62", "varuint62"];
+            let p = prims[(idx - 10) as usize];
+            let (lo, hi) = prim_bounds(p).unwrap();
+            let mut d = en("E", Some(MType::prim(p)), vec![enumerator_v("Lo", MInt::spelled(lo, &lo.to_string())), enumerator_v("Hi", MInt::spelled(hi, &hi.to_string())), enumerator_v("Mid", MInt::dec(1))]);
+            if let MDef::Enum(e) = &mut d {
+                e.unchecked = idx % 2 == 0;
+            }
+            f.defs.push(d);
+            label = format!("enumerator extremes of {p}");
+        } else if idx == 22 {
+            f.defs.push(en("V", None, vec![MEnumerator { c: MCommon::new("Zero"), fields: Some(vec![MField::tagged("t", 2147483647, i32t().opt()), MField::tagged("u", 0, i32t().opt())]), value: Some(MInt::dec(0)) }, enumerator_v("Max", MInt::dec(2147483647))]));
+            label = "discriminant and tag extremes".to_string();
+        } else {
+            f.defs.push(st("Deep", vec![MField::new("a", MType::seq(MType::dict(MType::prim("string"), MType::result(MType::seq(MType::prim("uint8").opt()), MType::prim("string")).opt())))]));
+            f.defs.push(alias("AnonAlias", MType::dict(MType::prim("int32"), MType::seq(MType::prim("bool")))));
+            f.defs.push(st("UsesAlias", vec![MField::new("a", MType::named("AnonAlias")), MField::new("b", MType::seq(MType::named("AnonAlias")).opt())]));
+            label = "anonymous types nested to depth 3 and an alias of an anonymous type used twice".to_string();
+        }
+        ReqCase { program: vec![f, gen::lib_file()], files: vec![("main.slice".into(), true, 0), ("lib.slice".into(), false, 1)], args: vec![], label }
+    }
+}
+
+pub fn families(tier: &str) -> Vec<Box<dyn Family>> {
+    let v: Vec<Box<dyn ReqFamily>> = vec![Box::new(Docs), Box::new(Packed), Box::new(Singles), Box::new(PairsFam { all_splits: tier != "quick" })];
+    v.into_iter().map(|f| Box::new(ReqCheck { inner: f }) as Box<dyn Family>).collect()
 }
